@@ -169,11 +169,17 @@ def w1_concurrent_calls(col, rng, cidx, jobref):
     pid = "C16"
     sp = sched.gen_shape(rng, nmin=3, nmax=8, mc_max=4)
     sp["is_async"] = False
+    # a second, defaulted DAG parameter: concurrent calls pass it or not
+    sp["params"] = ["x", "y"]
+    sp["defaults"] = {"y": ("D", "y")}
+    for nd in sp["nodes"]:
+        if rng.random() < 0.3:
+            nd["args"].append(["p", "y"])
     d, _e, plain = S.build_tawazi(sp)
     ids = S.node_ids(sp)
     nthreads = rng.choice([2, 4, 8, 16])
     ncalls = rng.randint(1, 3)
-    plan_ = {t: [[Sym("arg", cidx, t, k)] for k in range(ncalls)] for t in range(nthreads)}
+    plan_ = {t: [[Sym("arg", cidx, t, k)] + ([Sym("argy", cidx, t, k)] if rng.random() < 0.5 else []) for k in range(ncalls)] for t in range(nthreads)}
     refs = {t: [S.run_reference(sp, a, plain) for a in plan_[t]] for t in range(nthreads)}
     rp = {"kind": "rerun_job", "job": dict(jobref, n_cases=cidx + 1), "source": S.render(sp), "threads": nthreads}
     B.reset_log()
@@ -220,6 +226,20 @@ def w1_concurrent_calls(col, rng, cidx, jobref):
         for x in viol:
             if x["prop"] in ("C02", "C03", "C04", "C05"):
                 col.violation(pid, "per_execution_monitor_failed_under_concurrent_calls(%s:%s)" % (x["prop"], x["mech"]), x["witness"], rp)
+    # afterwards the DAG must behave as freshly built: defaults intact, a missing required argument still rejected
+    from tawazi.errors import TawaziArgumentException
+
+    a_after = [Sym("arg", cidx, "after")]
+    ref_after = S.run_reference(sp, a_after, plain)
+    B.reset_log()
+    r_after = probes.run_op("call_after_concurrent_calls", lambda: d(*a_after))
+    r_missing = probes.run_op("call_without_required_argument", lambda: d())
+    col.counters["c16_calls_after_concurrent_calls"] += 1
+    if ref_after[0] == "ok" and (r_after[0] != "ok" or not same(ref_after[1].result, r_after[1])):
+        col.violation(pid, "dag_state_changed_by_concurrent_calls", dict(
+            expected=short(ref_after[1].result, 300), got=short(r_after[1], 300), threads=nthreads, source=S.render(sp)), rp)
+    if any(a == ["p", "x"] for nd in sp["nodes"] for a in nd["args"]) and not (r_missing[0] == "exc" and isinstance(r_missing[1], TawaziArgumentException)):
+        col.violation(pid, "missing_argument_no_longer_rejected_after_concurrent_calls", dict(outcome=short(r_missing, 200), source=S.render(sp)), rp)
     order = tuple(e["node"] for e in log if e["kind"] == "FENTER")[:60]
     col.hashes.add(S.spec_hash({"s": S.render(sp), "t": nthreads, "o": hash(order) & 0xFFFFFF}))
     if cidx % 20 == 0:
@@ -238,7 +258,23 @@ def w2_build_overlap(col, rng, cidx, jobref):
 
     shared_sp = sched.gen_shape(rng, nmin=2, nmax=5, mc_max=2)
     shared_sp["name"] = "shared"
-    shared, _e, shared_plain = S.build_tawazi(shared_sp)
+    shared_setup = {}
+    if rng.random() < 0.5:
+        # the shared DAG has a setup node whose result is already there ("after its setup nodes have run")
+        gsh = S.site_graph(shared_sp)
+        for i, nd in enumerate(shared_sp["nodes"]):
+            if gsh.in_degree(i) == 0 and not any(a[0] == "p" for a in nd["args"]) and nd["active"] is None \
+                    and sum(1 for m in shared_sp["nodes"] if m["fn"] == nd["fn"]) == 1:
+                shared_sp["fns"][nd["fn"]]["setup"] = True
+                shared_setup[i] = None
+                break
+    shared_plain = {name: probes.mkprobe(name, shape=tuple(fs["shape"]) if fs.get("shape") else None) for name, fs in shared_sp["fns"].items()}
+    shared, _e, _sp = S.build_tawazi(shared_sp, plain=shared_plain)
+    if shared_setup:
+        shared.setup()
+        ids_sh = S.node_ids(shared_sp)
+        shared_setup = {i: shared.results[ids_sh[i]] for i in shared_setup}
+        col.counters["c16_shared_dag_with_setup_node"] += 1
     a_sp = sched.gen_shape(rng, nmin=2, nmax=6, mc_max=2)
     a_sp["name"] = "building"
     c_sp = sched.gen_shape(rng, nmin=2, nmax=5, mc_max=2)
@@ -258,7 +294,7 @@ def w2_build_overlap(col, rng, cidx, jobref):
     def wrap(real):
         def w(*a, **k):
             ev_in.set()
-            ev_go.wait(20)
+            out["A_released_by_B"] = ev_go.wait(20)
             return real(*a, **k)
 
         return w
@@ -277,7 +313,7 @@ def w2_build_overlap(col, rng, cidx, jobref):
             out["C"] = ("exc", e)
 
     args = [Sym("arg", cidx, "b")]
-    ref = S.run_reference(shared_sp, args, shared_plain)
+    ref = S.run_reference(shared_sp, args, shared_plain, env_values=dict(shared_setup))
     old = cfg.TAWAZI_EXECNODE_OUTSIDE_DAG_BEHAVIOR
 
     def thread_b():
@@ -313,6 +349,9 @@ def w2_build_overlap(col, rng, cidx, jobref):
     if any(t.is_alive() for t in (ta, tb, tc)) or "B_call" not in out or "B_fn" not in out or "A" not in out:
         col.violation(pid, "threads_blocked_during_overlapped_build", dict(done=sorted(out), building=S.render(a_sp)), rp)
         return
+    if out.get("A_released_by_B") is False:
+        col.violation(pid, "call_in_other_thread_blocked_until_the_paused_build_finished", dict(
+            shared=S.render(shared_sp), shared_has_setup_node=bool(shared_setup), done=sorted(k for k in out)), rp)
     # B: running a DAG in another thread is unaffected by the build
     r = out["B_call"]
     if ref[0] == "ok":
